@@ -253,8 +253,20 @@ func Failures() {
 		"ts[9].Name", "m[\"zz\"].Kids[0].Name", "t.Kids[0].secret", "t.Ptr.Ptr.Get()", "t.N.Name", "t.Kids.Name",
 		// a pointer receiver without such a method (also a field name used as a method); a field promoted through a nil embedded pointer
 		"p.Nope()", "t.Ptr.Nope()", "p.Name()", "t.Ptr.Nope(t.Name)", "ne.BName", "ne.Tag()", "nep.BName",
+		// ... and nothing can be read through the result of such a call
+		"p.Nope().Name", "t.Ptr.Nope().Name", "p.Nope(t.Missing).Kids[0].Name",
 	}
-	e := exprs[vrt.Choice(len(exprs))]
+	// the result of a failed navigation bound with let: nothing can be read through the name
+	lets := []string{"p.Nope()", "t.Ptr.Nope(1)", "t.Kids[0].Nope()", "ne.Tag()"}
+	k := vrt.Choice(len(exprs) + len(lets))
+	if k >= len(exprs) {
+		e := lets[k-len(exprs)]
+		got, err := render("<% let q = "+e+" %>[<%= q.Name %><%= q.Kids[0].Name %>]", ctxFor(t))
+		vrt.Assert(err != nil || got == "[]", "navigation that cannot be completed, bound with let: an error or nothing, never a value: "+e)
+		vrt.Cover("done")
+		return
+	}
+	e := exprs[k]
 	got, err := render("[<%= "+e+" %>]", ctxFor(t))
 	vrt.Assert(err != nil || got == "[]", "navigation that cannot be completed: an error or empty output, never a value: "+e)
 	vrt.Cover("done")
